@@ -121,7 +121,9 @@ func valid(yr int, mon int, day int, hr int, min int, sec int, ms int) bool {
 		!mmSecond.valid(sec) || !mmMillisecond.valid(ms) {
 		return false
 	}
-	t := goTime(yr, mon, day, 0, 0, 0, 0)
+	// use UTC: in a local zone whose daylight saving starts at midnight
+	// (e.g. America/Sao_Paulo 2017-10-15) that day has no 00:00
+	t := time.Date(yr, time.Month(mon), day, 0, 0, 0, 0, time.UTC)
 	return t.Year() == yr && int(t.Month()) == mon && t.Day() == day
 }
 
